@@ -268,10 +268,10 @@ fn token_offsets(text: &str) -> Vec<(usize, usize)> {
 /// "Syntax Error at L:C : text :" -> (L, C, text)
 fn parse_syntax_error(msg: &str) -> Option<(usize, usize, String)> {
     // the driver's own report of a jump to a label that is defined nowhere has the same three parts
-    // (the headline in either case)
-    let rest = match msg.split("Syntax Error at ").nth(1).or_else(|| msg.split("Syntax error at ").nth(1)) {
+    // (the headline in either case; failing that, the first "... at L:C : text" of the message, whatever its words)
+    let rest = match msg.split("Syntax Error at ").nth(1).or_else(|| msg.split("Syntax error at ").nth(1)).or_else(|| msg.split(" used but not defined at ").nth(1)) {
         Some(r) => r,
-        None => msg.split(" used but not defined at ").nth(1)?,
+        None => generic_position(msg)?,
     };
     let first = rest.lines().next()?;
     let mut it = first.splitn(2, ':');
@@ -282,6 +282,27 @@ fn parse_syntax_error(msg: &str) -> Option<(usize, usize, String)> {
     let text = it2.next()?.to_string();
     let text = text.strip_suffix(" :").unwrap_or(&text).to_string();
     Some((l, c, text))
+}
+
+/// the text behind the first " at " (or leading "at ") that is followed by `L:C` or `L :C` -- for diagnostics in other words
+fn generic_position(msg: &str) -> Option<&str> {
+    let mut from = 0usize;
+    while let Some(k) = msg[from..].find("at ") {
+        let start = from + k + 3;
+        let r = &msg[start..];
+        let d1 = r.chars().take_while(|c| c.is_ascii_digit()).count();
+        if d1 > 0 && (k == 0 && from == 0 || msg[..from + k].ends_with(' ')) {
+            let r2 = r[d1..].trim_start();
+            if let Some(r3) = r2.strip_prefix(':') {
+                let r3 = r3.trim_start();
+                if r3.chars().next().map(|c| c.is_ascii_digit()).unwrap_or(false) {
+                    return Some(r);
+                }
+            }
+        }
+        from = start;
+    }
+    None
 }
 
 pub fn eval_corrupt(c: &(PCase16, u16, u8)) -> CaseOutcome {
@@ -458,7 +479,7 @@ pub fn cited_lines(stdout: &str) -> Vec<Cited> {
             v.push(Cited { kind: "about", line: num(r), text: r.splitn(2, " : ").nth(1).map(|t| t.to_string()) });
         } else if let Some(r) = find("Int 3 at line ") {
             v.push(Cited { kind: "int3", line: num(r), text: None });
-        } else if let Some(r) = find("Attempt to divide by 0 : int 0 at ") {
+        } else if let Some(r) = find("int 0 at ").filter(|_| l.to_ascii_lowercase().contains("divide")) {
             v.push(Cited { kind: "divide-error", line: num(r), text: r.splitn(2, " : ").nth(1).map(|t| t.to_string()) });
         } else if let Some(r) = find("Error at line ") {
             let text = r.splitn(2, " : ").nth(1).and_then(|t| t.rfind(", value of AH").map(|k| t[..k].to_string()));
@@ -607,7 +628,7 @@ pub fn eval_undefined(c: &(crate::c14::Raw14, u8, u8)) -> CaseOutcome {
     }
     let so = out.out_str();
     // "Label {l} used but not defined at {line} :{col} : {text}"
-    let rest = match so.split("used but not defined at ").nth(1) {
+    let rest = match so.split("used but not defined at ").nth(1).or_else(|| generic_position(&so)) {
         Some(r) => r.lines().next().unwrap_or(""),
         None => return CaseOutcome::Fail { key: "c16|undefined|not-reported".into(), what: format!("no undefined-label diagnostic: {:?}", so.chars().take(120).collect::<String>()), replay },
     };
@@ -617,6 +638,7 @@ pub fn eval_undefined(c: &(crate::c14::Raw14, u8, u8)) -> CaseOutcome {
     let mut it2 = rest2.splitn(2, " : ");
     let col: usize = it2.next().unwrap_or("").trim().parse().unwrap_or(usize::MAX);
     let t = it2.next().unwrap_or("").to_string();
+    let t = t.trim_end().strip_suffix(" :").unwrap_or(t.trim_end()).to_string();
     if twice && l == lines.len() && t.trim_end() == "jq7(nowhere_1)" && col == 0 {
         return CaseOutcome::Pass { nontrivial: true, classes: vec!["c16/undefined-label".into(), "c16/undefined-label/used-twice-second-use-cited".into()], digest: fnv_str(&text) };
     }
